@@ -334,6 +334,8 @@ class HistoryRunner:
             self.violation(f"C18/handle-request-raises/{e['exc']}", res=res.witness())
         if not res.canary_ok:
             self.violation('C18/receiver-dead/after-valid-datagram', res=res.witness())
+        if res.canary_tries > 1:
+            acc.count('canary_retries')       # statistic: expected to stay 0
         injected = [e for e in res.inv if e[0] == 'raised']
         clock_errs = [e for e in res.errs if e['exc']
                       and not e['exc'].startswith(INJECTED_PREFIX)]
@@ -510,6 +512,13 @@ class HistoryRunner:
                                    path=m.resps[seq[i]].path)
                 elif seq[i] != seq[j] and m.order_constrained(seq[i], seq[j]):
                     acc.count('order_pairs_checked')
+        # statistic only (DESIGN: order is defined per path of one dispatcher)
+        for i in range(len(seq)):
+            for j in range(i + 1, len(seq)):
+                a, b = m.resps[seq[i]], m.resps[seq[j]]
+                if a.kind == b.kind and a.path != b.path and b.created < a.created \
+                        and b.enabled_at < a.enabled_at:
+                    acc.count('stat_cross_path_registration_order_inversions')
         # follow the observation
         for e in entries:
             if e[0] == 'inv':
